@@ -36,6 +36,9 @@ using namespace VATA;
 #define FILL 0     // number of additional concrete "filler" states NQ..NQ+FILL-1, each with one self loop on label 0: they are
 #endif             // disconnected from the symbolic core (so the core's simulation is unchanged) but make the engine use
                    // several counter rows (a row holds 31 (label,state) pairs with outgoing transitions)
+#if FILL && MODE == 1
+#error filler states are not put into the supplied partition: FILL needs MODE 0
+#endif
 typedef LU::SymLTS<NQ, NL> SL;
 
 extern "C" void harness(void)
@@ -61,7 +64,11 @@ extern "C" void harness(void)
   // ---- the system under test
   ExplicitLTS lts(CT);
   T.build(lts);
+#ifdef FILLCHAIN   // the filler states form a chain NQ -> NQ+1 -> ... (label 0): pairwise different, so the partition grows to FILL blocks one split at a time
+  for (unsigned i = 0; i + 1 < FILL; ++i) lts.addTransition(NQ + i, 0, NQ + i + 1);
+#else
   for (unsigned i = 0; i < FILL; ++i) lts.addTransition(NQ + i, 0, NQ + i);
+#endif
   lts.init();
   CHECK(lts.states() == ns, 1);
 
